@@ -37,6 +37,15 @@ CHECKS = [
              'generated arguments in and just outside the domain. Exhaustive inside the box, sampling for Leg.',
      'note': 'trusted: the table of moduli per symmetry (from the docs), NumPy integer arithmetic; U(1) charges outside '
              'the box are not enumerated'},
+    {'id': 'C20',
+     'technique': 'exhaustive enumeration of lattices and label patterns against a modular-arithmetic model + Hypothesis rule-based state machine for the container',
+     'text': 'All SquareLattice dims<=5x5 x 3 boundaries, Checkerboard, Triangular (default, full_patch infinite/obc <=4x4) and every '
+             'RectangularUnitcell label matrix with <=8 (quick) / <=10 (thorough) cells over 4 labels are enumerated; each accepted '
+             'geometry is audited over a +-2 cell window, 8 directions and 49 shifts against an independent model (nn_site, inverse, '
+             'bonds, classes, site2index partition, f_ordered); acceptance is compared with the single-neighbourhood model. Larger '
+             'patterns and Lattice/Peps histories (set, patch, apply, shallow_copy, constructors) are sampled with Hypothesis.',
+     'note': 'trusted: the tiling model written from the docstrings; window and shift bounds; the cylinder seam bonds are an open '
+             'known finding (by design lattice- but not fermionically ordered)'},
 ]
 
 _ALL = [f'C{i:02d}' for i in range(1, 21)]
